@@ -352,6 +352,10 @@ func (m *Model) applyZSet(o Op) Exp {
 		if !ok {
 			return zreply(nil, ws)
 		}
+		if t-s+1 > maxBulkRead {
+			m.dev("D16")
+			return Exp{R: rErr("too much batch size")}
+		}
 		return zreply(ps[s:t+1], ws)
 	case "zrangebyscore", "zrevrangebyscore", "zcount":
 		if len(o.A) < 2 {
@@ -395,6 +399,10 @@ func (m *Model) applyZSet(o Op) Exp {
 		}
 		if o.Name == "zrevrangebyscore" {
 			sel = reversed(sel)
+		}
+		if res := applyLimit(sel, off, cnt); len(res) > maxBulkRead {
+			m.dev("D16")
+			return Exp{R: rErr("too much batch size")}
 		}
 		ex := zreply(applyLimit(sel, off, cnt), ws)
 		ex.Class = cls
